@@ -42,8 +42,10 @@ PROPS = {
                            B + "scheme", U + "add_schemes"], lemmas=L.STAB + L.C06L),
     "C07": dict(functions=[S + "hybrid_rush_larsen", S + "generalized_rush_larsen", S + "explicit_euler", S + "get_scheme",
                            U + "add_schemes", B + "scheme"], lemmas=[]),
+    "C08": dict(functions=["gotranx.transformer._same_definition", M + "sort_assignments", X + "build_expression.expr2symbols"], lemmas=[]),
     "C09": dict(functions=[M + "sort_assignments", O + "sorted_assignments", O + "missing_variables", S + "get_scheme"] + ACCESSORS,
                 lemmas=[]),
+    "C10": dict(functions=[O + "__eq__", O + "sorted_assignments", M + "sort_assignments"] + ACCESSORS, lemmas=[]),
     "C11": dict(functions=ODE_PRINT, lemmas=[]),
     "C12": dict(functions=[O + "sorted_assignments", O + "dependents", B + "__init__", B + "_state_assignments",
                            B + "_parameter_assignments", B + "rhs", B + "scheme", B + "missing_values"] + SCHEMES,
